@@ -150,6 +150,40 @@ class Ref:
     def mind_start(self):
         return self.minds()[self.spec["start"]]
 
+    def minds_expansion(self):
+        """Grammar-expansion depthing as the documentation defines it (docs/grammars.md): the depth grows at every
+        expanded production rule -- abstract type +1, concrete production 1 + deepest field, a base value counts 1;
+        a refinement adds nothing.  Only defined here for list/tuple/union-free grammars."""
+        reg = self.registered()
+        d = {n: INF for n in self.order}
+
+        def mt(t):
+            k = t[0]
+            if k in BASES:
+                return 1
+            if k == "cls":
+                return d[t[1]]
+            if k == "ann":
+                return mt(t[1])
+            raise ValueError(k)
+
+        changed = True
+        while changed:
+            changed = False
+            for n in self.order:
+                if n not in reg:
+                    continue
+                if self.is_abstract(n):
+                    m = min([d[p] for p in self.productions(n, reg)] or [INF])
+                    v = INF if m >= INF else 1 + m
+                else:
+                    m = max([mt(t) for _, t in self.cls[n]["fields"]] or [0])
+                    v = INF if m >= INF else 1 + m
+                if v < d[n]:
+                    d[n] = v
+                    changed = True
+        return d
+
     def lib_like_minds(self):
         """The library's documented *conservative* convention (lists need one element, bool
         counts like the other base types): used only to phrase premises, never as an oracle."""
